@@ -535,6 +535,8 @@ impl<E> Inner<E> {
                 )
             );
         }
+        #[cfg(metrique_verif)]
+        metrique_writer_core::verif::point(1);
         // Note that we're not enormously concerned about the ordering guarantees between the queue push and the unpark
         // signal. That's because the writer thread will at most wait for flush_interval before waking itself up.
         self.unparker.unpark();
@@ -543,6 +545,8 @@ impl<E> Inner<E> {
     fn flush_async(&self) -> FlushWait {
         let (channel, receiver) = tokio::sync::oneshot::channel();
         self.flush_queue_sender.send(FlushSignal { channel }).ok();
+        #[cfg(metrique_verif)]
+        metrique_writer_core::verif::point(2);
         self.unparker.unpark();
         FlushWait::from_future(async move {
             let _ = receiver.await;
@@ -653,6 +657,79 @@ impl WakerTracker {
     }
 }
 
+/// Verification hook (only with `--cfg metrique_verif`): drives the private waker-tracking state
+/// machine of the background queue with arbitrary `(status, entry_count, capacity)` arguments.
+#[cfg(metrique_verif)]
+#[doc(hidden)]
+pub mod verif {
+    use super::{DrainResult, FlushSignal, WakerTracker};
+
+    /// A real `WakerTracker` together with the sending half of its flush-signal channel.
+    pub struct WakerHarness {
+        tracker: WakerTracker,
+        sender: std::sync::mpsc::Sender<FlushSignal>,
+    }
+
+    impl Default for WakerHarness {
+        fn default() -> Self {
+            Self::new()
+        }
+    }
+
+    impl WakerHarness {
+        /// A fresh tracker with an empty channel.
+        pub fn new() -> Self {
+            let (sender, receiver) = std::sync::mpsc::channel();
+            WakerHarness {
+                tracker: WakerTracker::new(receiver),
+                sender,
+            }
+        }
+
+        /// Sends a real flush signal (what `flush_async` does); the returned receiver resolves
+        /// (with a closed error) when the tracker wakes the waker.
+        pub fn send_flush(&self) -> tokio::sync::oneshot::Receiver<()> {
+            let (channel, receiver) = tokio::sync::oneshot::channel();
+            self.sender.send(FlushSignal { channel }).ok();
+            receiver
+        }
+
+        /// Calls the private `handle_waiting_wakers`; returns whether `flush_stream` was called.
+        pub fn handle_waiting_wakers(
+            &mut self,
+            capacity: usize,
+            drained: bool,
+            entry_count: usize,
+        ) -> bool {
+            let mut flushed = false;
+            self.tracker.handle_waiting_wakers(
+                || capacity,
+                || flushed = true,
+                if drained {
+                    DrainResult::Drained
+                } else {
+                    DrainResult::HitDeadline
+                },
+                entry_count,
+            );
+            flushed
+        }
+
+        /// Calls the private `will_progress_on_drained_queue`.
+        pub fn will_progress_on_drained_queue(&mut self) -> bool {
+            self.tracker.will_progress_on_drained_queue()
+        }
+
+        /// `(number of waiting wakers, entries_before_wake)`
+        pub fn state(&self) -> (usize, usize) {
+            (
+                self.tracker.waiting_wakers.len(),
+                self.tracker.entries_before_wake,
+            )
+        }
+    }
+}
+
 impl<S: EntryIoStream, E: Entry> Receiver<S, E> {
     fn run(mut self, flush_queue_receiver: std::sync::mpsc::Receiver<FlushSignal>) {
         let span = tracing::span!(tracing::Level::TRACE, "metrics background queue", sink=?self.inner.name);
@@ -668,6 +745,8 @@ impl<S: EntryIoStream, E: Entry> Receiver<S, E> {
             let mut idle_duration = Duration::ZERO;
             loop {
                 let (status, entry_count) = self.drain_until_deadline(next_flush);
+                #[cfg(metrique_verif)]
+                metrique_writer_core::verif::point(3);
 
                 waker_tracker.handle_waiting_wakers(
                     || queue_capacity,
@@ -686,6 +765,8 @@ impl<S: EntryIoStream, E: Entry> Receiver<S, E> {
 
                 // if the waker tracker can make progress observing an empty queue, let it
                 if !waker_tracker.will_progress_on_drained_queue() {
+                    #[cfg(metrique_verif)]
+                    metrique_writer_core::verif::point(4);
                     let park_start = Instant::now();
                     self.parker.park_deadline(next_flush);
                     if self.inner.recorder.is_some() {
@@ -718,6 +799,8 @@ impl<S: EntryIoStream, E: Entry> Receiver<S, E> {
                 tracing::info!("caught shutdown signal, shutting down background metrics queue");
                 return self.shut_down();
             }
+            #[cfg(metrique_verif)]
+            metrique_writer_core::verif::point(5);
             if Arc::get_mut(&mut self.inner).is_some() {
                 tracing::info!("no appenders left, shutting down background metrics queue");
                 return self.shut_down();
